@@ -1,0 +1,7 @@
+//go:build !verif
+
+package dbkit
+
+func verifAwait(string, interface{}, func() bool) {}
+
+func verifClosed(<-chan struct{}) bool { return false }
